@@ -8,6 +8,7 @@ import Iota.Tie.Bech32
 import Iota.Tie.C14
 import Iota.Model.Address
 import Iota.Proofs.Vectors.Hash
+import Iota.Tie.MigrationCode
 
 namespace Iota.Tie.C19
 open Iota
@@ -50,5 +51,47 @@ theorem rest :
     Gen.Address.rest_address = Expect.Address_rest_address ∧
     Gen.Address.rest_migration = Expect.Address_rest_migration :=
   ⟨rfl, rfl⟩
+
+/-! ### migration.go — and the functions of iota.go it calls: `guards.IsTrytesOfExactLength` and iota.go's copy of
+`encoding/b1t6` — translated AS CODE = the model (`Gen.Migration.*` in `Iota/Gen/Migration.lean`; `none` = Go run-time
+panic, `error` = `Option String`).  `blake2b.Sum256` is a PARAMETER `sum` of the generated `Encode` / `Decode`; the model has
+the hash `H` as a parameter too, and `hH` says that `H` is `sum` on model bytes (`bv` converts `UInt8` to `BitVec 8`).
+Proofs: `Iota/Tie/MigrationCode.lean`; end-to-end corollaries on the generated functions alone: `Iota/Tie/E2E/Migration.lean`. -/
+
+open Iota.Tie.Bech32Code (bv) in
+/-- **the guard `IsTrytesOfExactLength(trytes, n)`, which loops over the RUNES of the string, never panics and is true exactly
+when the string has `n` bytes, is not empty and every BYTE is one of `A`…`Z`, `9`** — for every byte string (non-ASCII bytes
+included: they start a rune ≥ 128 or yield U+FFFD) of a length a Go string can have -/
+theorem code_guard (t : List UInt8) (n : Nat) (ht : t.length < 2 ^ 63) (hn : n < 2 ^ 63) :
+    Gen.Migration.guards.IsTrytesOfExactLength (bv t) (BitVec.ofNat 64 n) = some (Migration.isTrytesOfExactLength t n) :=
+  MigrationCode.IsTrytesOfExactLength_eq t n ht hn
+
+open Iota.Tie.Bech32Code (bv) in
+/-- **`migration.Decode`, for EVERY byte string and whatever function is passed for `blake2b.Sum256`, returns what the model's
+`decode` returns: the address and a nil error, or the zero address and the error** (`MigrationCode.errName`: the name of the
+error variable it is or wraps; the two `fmt.Errorf("…%w", err)` errors both wrap `b1t6.ErrInvalidTrits` and are not told
+apart, message texts are not modelled).  No hypothesis on the length of `sum`'s results is needed: the bounds of
+`hash[:len(checksumBytes)]` are checked against the length 32 of the array type. -/
+theorem code_migration_decode (sum : List (BitVec 8) → List (BitVec 8)) (H : Migration.Bytes → Migration.Bytes)
+    (hH : ∀ x, sum (bv x) = bv (H x)) (t : List UInt8) (ht : t.length < 2 ^ 63) :
+    Gen.Migration.migration.Decode sum (bv t) = some (match Migration.decode H t with
+      | .ok a => (bv a, none)
+      | .error e => (List.replicate 32 0#8, some (MigrationCode.errName e))) :=
+  MigrationCode.Decode_eq sum H hH t ht
+
+/-- **`migration.Decode` never panics: not on lower-case or non-ASCII input, not for any length, not for any `sum`** (the
+guard admits only 81 characters `A`…`Z`, `9`, so the table lookups of `b1t6.DecodeTrytes` — which alone panics on `"aa"`,
+`C14.code_b1t6_decodeTrytes` — are in range and every slice bound is valid) -/
+theorem code_migration_decode_never_panics (sum : List (BitVec 8) → List (BitVec 8)) (s : List (BitVec 8))
+    (hs : s.length < 2 ^ 63) : Gen.Migration.migration.Decode sum s ≠ none :=
+  MigrationCode.Decode_never_panics_any sum s hs
+
+open Iota.Tie.Bech32Code (bv) in
+/-- **`migration.Encode` of a 32-byte address never panics and is the model's `encode`**: `TRANSFER`, the b1t6 trytes of the
+address followed by the first four bytes of its hash, `9` -/
+theorem code_migration_encode (sum : List (BitVec 8) → List (BitVec 8)) (H : Migration.Bytes → Migration.Bytes)
+    (hH : ∀ x, sum (bv x) = bv (H x)) (a : List UInt8) (ha : a.length = 32) :
+    Gen.Migration.migration.Encode sum (bv a) = some (bv (Migration.encode H a)) :=
+  MigrationCode.Encode_eq sum H hH a ha
 
 end Iota.Tie.C19
